@@ -269,14 +269,27 @@ const KEYWORDS: [&str; 32] = ["ADD", "AND", "NOT", "BR", "BRP", "BRZ", "BRZP", "
     "LD", "LDI", "LDR", "LEA", "ST", "STI", "STR", "TRAP", "NOP", "RET", "RTI", "GETC", "OUT", "PUTC", "PUTS", "IN", "PUTSP", "HALT"];
 
 /// A fresh label name (never a keyword, never lexed as a number or register).
+thread_local! {
+    /// Labels may contain non-ASCII word characters after the first one (the lexer's identifier rule is
+    /// `[A-Za-z_]\w*` with Unicode `\w`): letters without case, a non-ASCII digit, and letters whose
+    /// upper-case form has another UTF-8 length (U+FB01 -> "FI", U+017F -> "S", U+00DF -> "SS").
+    /// Set by the assembler / linker / format domains; the parser domains keep ASCII labels.
+    pub static EXOTIC_LABELS: std::cell::Cell<bool> = const { std::cell::Cell::new(false) };
+}
+const EXOTIC_LABEL_CHARS: [char; 5] = ['\u{4e16}', '\u{fb01}', '\u{17f}', '\u{df}', '\u{663}'];
+
 pub fn label_name(rng: &mut StdRng, used: &mut Vec<String>) -> String {
     let first = b"ABCDEFGHIJKLMNOPQSTUVWYZ_abcdefghijklmnopqstuvwyz";
     let rest = b"ABCDEFGHIJKLMNOPQRSTUVWXYZabcdefghijklmnopqrstuvwxyz0123456789_";
+    let exotic = EXOTIC_LABELS.with(|e| e.get()) && chance(rng, 12);
     loop {
         let n = rng.random_range(1..=6);
         let mut s = String::new();
         s.push(first[rng.random_range(0..first.len())] as char);
-        for _ in 1..n { s.push(rest[rng.random_range(0..rest.len())] as char); }
+        for _ in 1..n {
+            if exotic && chance(rng, 40) { s.push(*pick(rng, &EXOTIC_LABEL_CHARS)); }
+            else { s.push(rest[rng.random_range(0..rest.len())] as char); }
+        }
         let up = s.to_uppercase();
         if KEYWORDS.contains(&up.as_str()) { continue; }
         if used.iter().any(|u| u.to_uppercase() == up) { continue; }
@@ -286,7 +299,7 @@ pub fn label_name(rng: &mut StdRng, used: &mut Vec<String>) -> String {
 }
 /// Another spelling of the same label (labels are case-insensitive).
 pub fn respell(rng: &mut StdRng, l: &str) -> String {
-    match rng.random_range(0..4) { 0 => l.to_uppercase(), 1 => l.to_lowercase(), _ => l.to_string() }
+    match rng.random_range(0..4) { 0 => l.to_ascii_uppercase(), 1 => l.to_ascii_lowercase(), _ => l.to_string() }
 }
 
 fn rnd_reg(rng: &mut StdRng) -> i64 { rng.random_range(0..8) }
